@@ -180,6 +180,118 @@ impl<'de> Deserialize<'de> for Shown {
     }
 }
 
+/// Hand-written impls that drive the serializer the way derive never does: a length hint that
+/// is absent, too small or too large; keys and values through `serialize_key` /
+/// `serialize_value` instead of `serialize_entry`; sequences with wrong hints. (`flatten`,
+/// `skip_serializing_if` and adaptors such as `serde_with` produce exactly such call patterns.)
+#[derive(PartialEq, Debug, Clone)]
+pub struct ManualMap(pub Vec<(String, u16)>, pub u8);
+
+impl Serialize for ManualMap {
+    fn serialize<S: serde::Serializer>(&self, s: S) -> Result<S::Ok, S::Error> {
+        use serde::ser::SerializeMap;
+        let hint = match self.1 {
+            0 => None,
+            1 => Some(0),
+            2 => Some(self.0.len()),
+            _ => Some(self.0.len() + 100),
+        };
+        let mut m = s.serialize_map(hint)?;
+        for (i, (k, v)) in self.0.iter().enumerate() {
+            if (i + self.1 as usize) % 2 == 0 {
+                m.serialize_key(k)?;
+                m.serialize_value(v)?;
+            } else {
+                m.serialize_entry(k, v)?;
+            }
+        }
+        m.end()
+    }
+}
+
+impl<'de> Deserialize<'de> for ManualMap {
+    fn deserialize<D: serde::Deserializer<'de>>(d: D) -> Result<Self, D::Error> {
+        struct V;
+        impl<'de> serde::de::Visitor<'de> for V {
+            type Value = Vec<(String, u16)>;
+            fn expecting(&self, f: &mut std::fmt::Formatter) -> std::fmt::Result {
+                f.write_str("a map")
+            }
+            fn visit_map<A: serde::de::MapAccess<'de>>(self, mut a: A) -> Result<Self::Value, A::Error> {
+                // alternate between next_entry and next_key / next_value, and trust size_hint
+                // only as a hint
+                let mut out = Vec::with_capacity(a.size_hint().unwrap_or(0).min(16));
+                let mut i = 0;
+                loop {
+                    if i % 2 == 0 {
+                        match a.next_entry::<String, u16>()? {
+                            Some(e) => out.push(e),
+                            None => break,
+                        }
+                    } else {
+                        match a.next_key::<String>()? {
+                            Some(k) => {
+                                let v = a.next_value::<u16>()?;
+                                out.push((k, v));
+                            }
+                            None => break,
+                        }
+                    }
+                    i += 1;
+                }
+                Ok(out)
+            }
+        }
+        Ok(ManualMap(d.deserialize_map(V)?, 2))
+    }
+}
+
+#[derive(PartialEq, Debug, Clone)]
+pub struct ManualSeq(pub Vec<i32>, pub u8);
+
+impl Serialize for ManualSeq {
+    fn serialize<S: serde::Serializer>(&self, s: S) -> Result<S::Ok, S::Error> {
+        use serde::ser::SerializeSeq;
+        let hint = match self.1 {
+            0 => None,
+            1 => Some(0),
+            2 => Some(self.0.len()),
+            _ => Some(self.0.len() + 100),
+        };
+        let mut q = s.serialize_seq(hint)?;
+        for x in &self.0 {
+            q.serialize_element(x)?;
+        }
+        q.end()
+    }
+}
+
+impl<'de> Deserialize<'de> for ManualSeq {
+    fn deserialize<D: serde::Deserializer<'de>>(d: D) -> Result<Self, D::Error> {
+        struct V;
+        impl<'de> serde::de::Visitor<'de> for V {
+            type Value = Vec<i32>;
+            fn expecting(&self, f: &mut std::fmt::Formatter) -> std::fmt::Result {
+                f.write_str("a sequence")
+            }
+            fn visit_seq<A: serde::de::SeqAccess<'de>>(self, mut a: A) -> Result<Self::Value, A::Error> {
+                let hint = a.size_hint();
+                let mut out = Vec::new();
+                while let Some(x) = a.next_element::<i32>()? {
+                    out.push(x);
+                }
+                if let Some(h) = hint {
+                    if h != out.len() {
+                        return Err(serde::de::Error::custom(format!("size_hint() announced {h} elements, {} were delivered", out.len())));
+                    }
+                }
+                Ok(out)
+            }
+        }
+        Ok(ManualSeq(d.deserialize_seq(V)?, 2))
+    }
+}
+
 /// A struct whose *second* field carries the reserved name.
 #[derive(Serialize, Deserialize, PartialEq, Debug, Clone)]
 pub struct TokenSecond {
@@ -550,6 +662,39 @@ pub fn run(rep: &mut Report, tier: Tier) {
     contexts(&Ok::<u8, String>(1), "Result::Ok", false, &mut t);
     contexts(&Err::<u8, String>("e".into()), "Result::Err", false, &mut t);
     contexts(&std::path::PathBuf::from("/a/b"), "PathBuf", false, &mut t);
+    // hand-written impls with every length-hint pattern (equality ignores the pattern field,
+    // which is not serialized: compare through a pattern-2 copy)
+    for n in 0..=4usize {
+        for pattern in 0..4u8 {
+            let m = ManualMap((0..n).map(|i| (format!("k{i}"), i as u16 * 1000)).collect(), pattern);
+            let q = ManualSeq((0..n).map(|i| i as i32 - 2).collect(), pattern);
+            // serialize with the pattern, compare with the canonical pattern
+            t.evals += 2;
+            for (what, got, want) in [
+                ("hand-written map impl", explore::guard(|| to_value(m.clone())), serde_json::to_value(&m).ok()),
+                ("hand-written sequence impl", explore::guard(|| to_value(q.clone())), serde_json::to_value(&q).ok()),
+            ] {
+                match (got, want) {
+                    (Ok(Ok(v)), Some(j)) => {
+                        if !same_shape(&v, &j, false) {
+                            t.violation("", format!("{what} (length-hint pattern {pattern}, {n} items): to_value gives {v}, serde_json gives {j}"), json!({"kind": "manual", "n": n, "pattern": pattern}));
+                        }
+                    }
+                    (Ok(Ok(_)), None) => {}
+                    (Ok(Err(e)), _) => t.violation("", format!("{what} (length-hint pattern {pattern}, {n} items): to_value failed: {e}"), json!({"kind": "manual", "n": n, "pattern": pattern})),
+                    (Err(p), _) => t.violation("", format!("{what} (length-hint pattern {pattern}): to_value panicked: {p}"), json!({"kind": "manual", "n": n, "pattern": pattern})),
+                }
+            }
+            match explore::guard(|| to_value(m.clone()).ok().and_then(|v| from_value::<ManualMap>(v).ok())) {
+                Ok(Some(back)) if back.0 == m.0 => {}
+                other => t.violation("", format!("hand-written map impl (pattern {pattern}, {n} items) does not round-trip: {other:?}"), json!({"kind": "manual", "n": n, "pattern": pattern})),
+            }
+            match explore::guard(|| to_value(q.clone()).ok().and_then(|v| from_value::<ManualSeq>(v).ok())) {
+                Ok(Some(back)) if back.0 == q.0 => {}
+                other => t.violation("", format!("hand-written sequence impl (pattern {pattern}, {n} items) does not round-trip: {other:?}"), json!({"kind": "manual", "n": n, "pattern": pattern})),
+            }
+        }
+    }
     for x in [Shown(0, String::new()), Shown(u32::MAX, "\"\\\n\u{e9}\u{1f600} a-tail-longer-than-sixteen-bytes".into())] {
         contexts(&x, "collect_str type", false, &mut t);
         key_context(&x, "BTreeMap<collect_str type,_>", &mut t);
